@@ -56,10 +56,15 @@ def wantPol (r : RRouteS) : RPol :=
 def c17 (tables : List (String × List RRouteS)) (o : List (String × RPol)) : Option String :=
   let want : List (String × RPol) := tables.flatMap (fun t => t.2.flatMap (fun r =>
     r.clusters.flatMap (fun c => (c, wantPol r) :: r.methods.map (fun m => (c ++ "|" ++ m, wantPol r)))))
-  match want.filter (fun w => (o.find? (fun e => e.1 = w.1)).map (·.2) != some w.2) with
+  -- a key named by several routes (two match rules, a traffic split) with different numbers: the property does not say
+  -- which of them counts, so the installed policy has to be the one derived from SOME route that names the key
+  let cands (k : String) : List RPol := (want.filter (fun w => w.1 = k)).map (·.2)
+  match want.filter (fun w => match (o.find? (fun e => e.1 = w.1)).map (·.2) with
+      | some p => !(cands w.1).contains p
+      | none => true) with
   | w :: _ =>
     let sh (p : RPol) : String := s!"retry={p.maxRetry} dur={p.maxDurationMs} rate={p.errRate} backoff={p.backoff}"
-    some s!"C17.retry_tracks_cache: policy for {w.1}: expected {sh w.2}, installed {((o.find? (fun e => e.1 = w.1)).map (fun e => sh e.2))}"
+    some s!"C17.retry_tracks_cache: policy for {w.1}: expected {(cands w.1).map sh}, installed {((o.find? (fun e => e.1 = w.1)).map (fun e => sh e.2))}"
   | [] =>
     match o.filter (fun e => !(want.any (fun w => w.1 = e.1))) with
     | e :: _ => some s!"C17.unreferenced_removed: policy for {e.1} is installed but no cached table references it"
